@@ -103,6 +103,16 @@ def _(value: Money):
     return "Money(" + repr(value.amount) + ", " + repr(value.unit) + ")"
 
 
+def _never_called():
+    # imports of the names that generated code may need, in places where they do not bind a module-level name
+    from inline_snapshot import HasRepr, external
+    return HasRepr, external
+
+
+if typing.TYPE_CHECKING:
+    from inline_snapshot import HasRepr, external
+
+
 def check(value, snap):
     assert value == snap
 
